@@ -16,6 +16,11 @@ KEYS = [b"k", b"key:1", b"", b"a b", b"k\r\n+OK\r\n", b"\x00\xff", b"K"]
 def g_key(rng):
     return rng.choice(KEYS) if rng.random() < 0.8 else bytes(rng.randrange(256) for _ in range(rng.randint(1, 12)))
 BIG_SIZES = [4095, 4096, 4097, 5000, 8192, 12000, 16384, 65536, 70000]      # around the usual I/O buffer sizes
+try:
+    import thresholds as _T
+    BIG_SIZES = _T.extend(BIG_SIZES, 64, 1 << 20, limit=9)      # ... and around every size constant of the source under test
+except Exception:
+    pass
 def g_str(rng):
     r = rng.random()
     if r < 0.02:
